@@ -855,67 +855,6 @@ func (c *Ctx) argKindsSafe(e ast.Expr, fieldKinds []string, pvCases map[string]b
 	return true, "parseField yields " + strings.Join(fieldKinds, "|")
 }
 
-// parserSliceSafe accepts json[i:] inside `for i < len(json)` and json[:start] / json[start:] after `start < 0 => return` with start = strings.Index(json, …).
-func (c *Ctx) parserSliceSafe(fd *ast.FuncDecl, se *ast.SliceExpr) string {
-	base := c.obj(se.X)
-	if base == nil || se.Max != nil {
-		return "slice of a non-variable / 3-index slice on the parse path"
-	}
-	bound := se.Low
-	if bound == nil {
-		bound = se.High
-	}
-	if bound == nil || (se.Low != nil && se.High != nil) {
-		return "two-sided slice " + exprStr(se) + " on the parse path: its bounds are not covered by a guard known to the checker (index out of range on short input)"
-	}
-	bv := c.obj(bound)
-	if bv == nil {
-		return "slice bound " + exprStr(bound) + " is not a simple variable"
-	}
-	// loop index of `for bv < len(base)`
-	okLoop := false
-	ast.Inspect(fd.Body, func(n ast.Node) bool {
-		fs, ok := n.(*ast.ForStmt)
-		if !ok || !containsNode(fs.Body, se) {
-			return true
-		}
-		if be, ok := unparen(fs.Cond).(*ast.BinaryExpr); ok && be.Op == token.LSS && c.obj(be.X) == bv {
-			if lc, ok := unparen(be.Y).(*ast.CallExpr); ok && c.isBuiltin(lc, "len") && c.obj(lc.Args[0]) == base {
-				okLoop = true
-			}
-		}
-		return true
-	})
-	if okLoop {
-		// the index must not have been advanced by a nested offset before this use in the same iteration: the slice occurs in the decode or as the nested call's argument
-		return ""
-	}
-	// start := strings.Index(base, …) with `start < 0 => return` before
-	okIdx, okGuard := false, false
-	for _, s := range fd.Body.List {
-		if s.Pos() > se.Pos() {
-			break
-		}
-		switch x := s.(type) {
-		case *ast.AssignStmt:
-			if len(x.Lhs) == 1 && len(x.Rhs) == 1 && c.obj(x.Lhs[0]) == bv {
-				call, ok := unparen(x.Rhs[0]).(*ast.CallExpr)
-				okIdx = ok && c.calleeFull(call) == "strings.Index" && c.obj(call.Args[0]) == base
-			}
-		case *ast.IfStmt:
-			if be, ok := unparen(x.Cond).(*ast.BinaryExpr); ok && be.Op == token.LSS && c.obj(be.X) == bv && blockTerminates(c, x.Body) {
-				if k, ok := c.constInt(be.Y); ok && k == 0 {
-					okGuard = true
-				}
-			}
-		}
-	}
-	if okIdx && okGuard {
-		return ""
-	}
-	return "slice " + exprStr(se) + " is not covered by `i < len(s)` of its loop nor by a checked strings.Index result"
-}
-
 func c04Determinism(c *Ctx) {
 	core := parseClosure(c)
 	c.R.Floor("C04.R6", len(core), 7)
@@ -1115,28 +1054,6 @@ func c20Counter(c *Ctx) {
 	}
 }
 
-func (m *Machine) isLineInc(s ast.Stmt) bool {
-	c := m.c
-	switch x := s.(type) {
-	case *ast.IncDecStmt:
-		st, ok := unparen(x.X).(*ast.StarExpr)
-		return ok && x.Tok == token.INC && c.obj(st.X) == m.lineV
-	case *ast.AssignStmt:
-		if len(x.Lhs) != 1 || len(x.Rhs) != 1 {
-			return false
-		}
-		st, ok := unparen(x.Lhs[0]).(*ast.StarExpr)
-		if !ok || c.obj(st.X) != m.lineV {
-			return false
-		}
-		if x.Tok == token.ADD_ASSIGN {
-			k, ok := c.constInt(x.Rhs[0])
-			return ok && k == 1
-		}
-	}
-	return false
-}
-
 func c20Seeds(c *Ctx) {
 	n := 0
 	for _, spec := range []struct{ name, machine, bracket string }{{"ParseList", "parseList", "["}, {"ParseObject", "parseObject", "{"}} {
@@ -1195,26 +1112,6 @@ func c04ParseFileAs(c *Ctx, rule string) {
 		o.Rule = rule
 		c.R.add(o)
 	}
-}
-
-func writesVarAfterDef2(c *Ctx, fd *ast.FuncDecl, v types.Object) bool {
-	n := 0
-	ast.Inspect(fd.Body, func(m ast.Node) bool {
-		switch x := m.(type) {
-		case *ast.AssignStmt:
-			for _, l := range x.Lhs {
-				if c.obj(l) == v {
-					n++
-				}
-			}
-		case *ast.IncDecStmt:
-			if c.obj(x.X) == v {
-				n++
-			}
-		}
-		return true
-	})
-	return n > 1
 }
 
 // c20Formats: on every path of the parser core that returns a constructed error, every integer that flows into the message is the
